@@ -101,7 +101,8 @@ Section Reader.
       + exact IHr.
       + rewrite IHr. destruct (rd_loop R f rest) as [l1 r1].
         destruct (rd_loop R f'' (r1 ++ c)) as [l2 r2]. reflexivity.
-    - cbn [app]. apply rd_loop_fuel; [exact Hf'|apply Hf''; lia].
+    - cbn [app]. rewrite (rd_loop_fuel f' f'' (buf ++ c) Hf' ltac:(apply Hf''; lia)).
+      destruct (rd_loop R f'' (buf ++ c)) as [l2 r2]. reflexivity.
   Qed.
 
   Lemma feed_settled buf c ls r : feed R buf c = (ls, r) -> find_sub (r_delim R) r = None.
@@ -167,7 +168,7 @@ Proof. discriminate. Qed.
 
 (* the seeded early return is refuted: "\r\nOK\r" then "\n" *)
 Lemma seeded_reader_refuted :
-  feed_chunks_seeded hf_reader [] [[13; 10; 79; 75; 13]; [10]] = ([], [13; 10; 79; 75; 13; 10]) /\
+  feed_chunks_seeded hf_reader [] [[13; 10; 79; 75; 13]; [10]] = ([], [79; 75; 13; 10]) /\
   feed_chunks hf_reader [] [[13; 10; 79; 75; 13]; [10]] = ([[79; 75]], []) /\
   feed hf_reader [] [13; 10; 79; 75; 13; 10] = ([[79; 75]], []).
 Proof. vm_compute. repeat split. Qed.
